@@ -3,17 +3,23 @@
 //! sequences, F4 captures, F5 jump patching, include-of-extending-template).
 //!
 //! Self-contained: depends only on `mccore`, `serde_json` and std, so that other checks can
-//! reuse it with `#[path = "c03/stmt.rs"] mod stmt;` (C07: residue after every program,
-//! C09: optimiser on/off over the same programs).
+//! reuse it with `#[path = "c03/stmt.rs"] mod stmt;` from `bin/cNN.rs` (or
+//! `#[path = "../c03/stmt.rs"]` from `bin/cNN/main.rs`) — C07: residue after every program,
+//! C09: optimiser on/off over the same programs. `refinterp.rs` refers to this module as
+//! `super::stmt`, so declare both at the crate root.
 //!
 //! Public API in one place:
-//!   * AST: `Expr`, `LoopField`, `Filter`, `Stmt`, `Template`, `Program`, `Bindings`
+//!   * AST: `Expr`, `LoopField`, `Filter`, `Stmt` (Text, Print, If, For, Break, Continue, Set,
+//!     SetBlock, FilterSection, Include, Block, Super), `Template` (+ `Template::extending`),
+//!     `Program` (templates + entry names), `Bindings` (context, global context, tag)
 //!   * printing: `source(&[Stmt])`, `Template::source()`, `Program::sources()`, `Program::json()`
 //!   * variants: `Program::with_variants()` adds `via_inc` (the program reached through an
 //!     `include`) and `in_blk` (the entry body moved into a block body) next to `main`
 //!   * families: `fam::f1_items / f1_decode`, `f2_*`, `f3_*`, `f4_*`, `f5_*`, `incext_*` — each
 //!     `*_decode(item, thorough, &mut |group| ...)` calls back once per program with every
-//!     context it has to be rendered under (`Group { program, bindings, tag }`).
+//!     context it has to be rendered under (`Group { program, bindings, tag, detail }`); every
+//!     entry of `program.entries` is to be rendered under every binding. Item counts depend on
+//!     the tier only; decoding is deterministic and allocation-light.
 #![allow(dead_code)]
 
 use mccore::vals::{K, V};
@@ -367,8 +373,10 @@ impl Bindings {
 pub struct Group<'a> {
     pub program: &'a Program,
     pub bindings: &'a [Bindings],
-    /// coarse class of the program, used in outcome / signature names
+    /// coarse class of the program, used in signature names (a few dozen values per family)
     pub tag: &'a str,
+    /// the exact family parameters of the program, for messages
+    pub detail: &'a str,
 }
 
 // ------------------------------------------------------------------------------------- families
@@ -515,7 +523,7 @@ pub mod fam {
                     }
                     bindings.push(Bindings::ctx_only(ctx, "var"));
                 }
-                emit(Group { program: &program, bindings: &bindings, tag: "var" });
+                emit(Group { program: &program, bindings: &bindings, tag: "var", detail: "" });
                 return;
             }
             rest -= n_var;
@@ -533,7 +541,7 @@ pub mod fam {
                         c /= nl as usize;
                     }
                     let program = f1_program(&conds, with_else);
-                    emit(Group { program: &program, bindings: &one, tag: "lit" });
+                    emit(Group { program: &program, bindings: &one, tag: "lit", detail: "" });
                 }
                 return;
             }
@@ -697,12 +705,13 @@ pub mod fam {
                 .map(|(class, v)| Bindings::ctx_only(vec![b("it", v.clone())], class))
                 .collect();
             let tag = format!("{}{}", jump_tag(cfg), if cfg.kv { "/kv" } else { "" });
-            emit(Group { program: &program, bindings: &bindings, tag: &tag });
+            emit(Group { program: &program, bindings: &bindings, tag: &tag, detail: &format!("{cfg:?}") });
             return;
         }
         let r = item - n;
         let (outer, inner) = (cfgs[(r / n) as usize], cfgs[(r % n) as usize]);
         let tag = format!("nested/{}-in-{}", jump_tag(inner), jump_tag(outer));
+        let detail = format!("outer {outer:?} inner {inner:?}");
         // inner loop over `it2`
         let program = Program::single(f2_nested(outer, inner, false)).with_variants();
         let mut bindings = vec![];
@@ -714,14 +723,14 @@ pub mod fam {
                 ));
             }
         }
-        emit(Group { program: &program, bindings: &bindings, tag: &tag });
+        emit(Group { program: &program, bindings: &bindings, tag: &tag, detail: &detail });
         // inner loop over the outer element
         let program = Program::single(f2_nested(outer, inner, true)).with_variants();
         let bindings: Vec<Bindings> = its
             .iter()
             .map(|(class, v)| Bindings::ctx_only(vec![b("it", v.clone())], &format!("{class}/elem")))
             .collect();
-        emit(Group { program: &program, bindings: &bindings, tag: &tag });
+        emit(Group { program: &program, bindings: &bindings, tag: &tag, detail: &detail });
     }
 
     // ============================================================ F3: scoping event sequences
@@ -1038,7 +1047,8 @@ pub mod fam {
             for mode in [PrintMode::IfDefined, PrintMode::Bare] {
                 let program = f3_program(seq, mode, seq.len() < max);
                 let tag = if mode == PrintMode::Bare { "bare" } else { "if-defined" };
-                emit(Group { program: &program, bindings: &bindings, tag });
+                let detail = seq.iter().map(|e| e.name()).collect::<Vec<_>>().join(", ");
+                emit(Group { program: &program, bindings: &bindings, tag, detail: &detail });
             }
         });
     }
@@ -1233,13 +1243,14 @@ pub mod fam {
             }
             let mut program = Program::single(cur).with_variants();
             program.templates.extend(templates);
-            let tag = format!(
-                "{}:{}{}",
-                stack.iter().map(|w| w.name()).collect::<Vec<_>>().join(">"),
-                btag,
-                ["", "@include", "@include-extending"][placement as usize]
+            let place = ["inline", "include", "include-extending"][placement as usize];
+            let tag = format!("{}@{place}", stack[0].name());
+            let detail = format!(
+                "wrappers {} / body {btag} {place}{}",
+                stack.iter().map(|w| w.name()).collect::<Vec<_>>().join(" > "),
+                if in_loop { " / inside a loop" } else { "" }
             );
-            emit(Group { program: &program, bindings: &bindings, tag: &tag });
+            emit(Group { program: &program, bindings: &bindings, tag: &tag, detail: &detail });
         }
     }
 
@@ -1506,12 +1517,14 @@ pub mod fam {
         for leaf in LEAVES {
             let program = f5_program(&chain, leaf);
             let bindings = f5_bindings(&chain, leaf);
-            let tag = match leaf {
-                Leaf::None => names.clone(),
-                Leaf::Break => format!("{names}>break"),
-                Leaf::Continue => format!("{names}>continue"),
+            let leaf_name = match leaf {
+                Leaf::None => "no-jump",
+                Leaf::Break => "break",
+                Leaf::Continue => "continue",
             };
-            emit(Group { program: &program, bindings: &bindings, tag: &tag });
+            let tag = format!("{}>{leaf_name}", chain.last().unwrap().name());
+            let detail = format!("{names} > {leaf_name}");
+            emit(Group { program: &program, bindings: &bindings, tag: &tag, detail: &detail });
         }
     }
 
@@ -1589,6 +1602,7 @@ pub mod fam {
         // rendering `c` directly is the control: it must give the inherited text too
         program.entries.push("c".to_string());
         let bindings = f3_bindings();
-        emit(Group { program: &program, bindings: &bindings, tag: "include-extends" });
+        let detail = format!("includer {m} / child {c} / base {bs}");
+        emit(Group { program: &program, bindings: &bindings, tag: "include-extends", detail: &detail });
     }
 }
